@@ -38,7 +38,7 @@ def check_C16(tier, t0):
 
     seed = core.verif_seed()
     n = scale(40000 if tier == "quick" else 3000000)
-    bud = budget(120 if tier == "quick" else 1500)
+    bud = budget(120 if tier == "quick" else 1200)
     # clause e: the finite sub-sweep, enumerated completely in both tiers
     n_sweep = len(eb.sweep_cases())
     sweep, _ = core.run_batch(eb.make_engine, {"seed": seed, "mode": "sweep"}, n_sweep, 64, bud)
@@ -102,7 +102,7 @@ def check_C17(tier, t0):
     seed = core.verif_seed()
     n = scale(40000 if tier == "quick" else 3000000)
     n_real = 1200 if tier == "quick" else 30000
-    bud = budget(150 if tier == "quick" else 1500)
+    bud = budget(150 if tier == "quick" else 1200)
     params = {"seed": seed, "real_every": max(1, n // n_real)}
     n_eof = len(ec.eof_sweep_cases())
     sweep, _ = core.run_batch(ec.make_engine, {"seed": seed, "mode": "eofsweep"}, n_eof, 64, bud)
@@ -155,7 +155,7 @@ def check_C08(tier, t0):
 
     seed = core.verif_seed()
     n = scale(30000 if tier == "quick" else 2500000)
-    bud = budget(120 if tier == "quick" else 1500)
+    bud = budget(120 if tier == "quick" else 1200)
     agg, info = core.run_batch(ee.make_engine, {"seed": seed}, n, 500 if tier == "quick" else 5000, bud)
     engine = ee.make_engine(seed)
     c = agg.counters
@@ -193,7 +193,7 @@ def check_C18(tier, t0):
 
     seed = core.verif_seed()
     n = scale(20000 if tier == "quick" else 1500000)
-    bud = budget(150 if tier == "quick" else 1500)
+    bud = budget(150 if tier == "quick" else 1200)
     n_sweep = len(eh.sweep_histories())
     sweep, _ = core.run_batch(eh.make_engine, {"seed": seed, "mode": "sweep"}, n_sweep, 500, bud)
     sweep_done = sweep.evaluations
@@ -279,7 +279,7 @@ def check_C19(tier, t0):
 
     seed = core.verif_seed()
     n = scale(1500 if tier == "quick" else 30000)  # per hash seed
-    bud = budget(200 if tier == "quick" else 1200)
+    bud = budget(200 if tier == "quick" else 1600)
     partial = os.environ.get("CVSSSIM_C19_PARTIAL")
     if partial:
         # child mode: one hash seed (the one this interpreter was started with)
